@@ -264,6 +264,55 @@ theorem C16_involution (s r : Sub K) (hc : SubConnected s) (h : s.rev = some r) 
 
 end subpath
 
+/-! ### the two-index loop of `_reverse_segments` -/
+section loop
+variable {K : Type} [Neg K]
+
+theorem revAll_append_eq (l1 l2 : List (Seg K)) :
+    revAll (l1 ++ l2) = (match revAll l1, revAll l2 with | some a, some b => some (a ++ b) | _, _ => none) := by
+  induction l1 with
+  | nil => simp only [List.nil_append, revAll]; cases revAll l2 <;> rfl
+  | cons s rest ih =>
+    simp only [List.cons_append, revAll, ih]
+    cases Seg.rev s <;> cases revAll rest <;> cases revAll l2 <;> rfl
+
+theorem revAll_single (z : Seg K) : revAll [z] = (Seg.rev z).map fun z' => [z'] := by
+  simp only [revAll]; cases Seg.rev z <;> rfl
+
+/-- **the two-index loop computes the reversed list of reversed segments** -/
+theorem C16_swap_loop_is_reversal : ∀ (n : Nat) (l : List (Seg K)), l.length ≤ n → swapLoop n l = (revAll l).map List.reverse := by
+  intro n
+  induction n with
+  | zero =>
+    intro l hl
+    cases l with
+    | nil => rfl
+    | cons a t => simp at hl
+  | succ fuel ih =>
+    intro l hl
+    match l, hl with
+    | [], _ => rfl
+    | [a], _ => simp only [swapLoop, revAll_single]; cases Seg.rev a <;> rfl
+    | a :: b :: rest, hl =>
+      have hsplit : b :: rest = (b :: rest).dropLast ++ [(b :: rest).getLast (by simp)] :=
+        (List.dropLast_concat_getLast (by simp)).symm
+      have hlen : ((b :: rest).dropLast).length ≤ fuel := by
+        simp only [List.length_dropLast, List.length_cons] at hl ⊢; omega
+      have := ih _ hlen
+      simp only [swapLoop, this]
+      conv => rhs; rw [hsplit]
+      simp only [revAll, revAll_append_eq]
+      cases Seg.rev a <;> cases Seg.rev ((b :: rest).getLast (by simp)) <;> cases revAll (b :: rest).dropLast <;> simp
+
+
+/-- hence `Subpath.reverse()` as the code runs it is the window reversal the theorems above are about -/
+theorem revLoop_eq (s : Sub K) : Sub.revLoop s = Sub.rev s := by
+  unfold Sub.revLoop Sub.rev
+  rw [C16_swap_loop_is_reversal _ _ (le_refl _)]
+  cases revAll s.drawn <;> rfl
+
+end loop
+
 /-! ### whole paths: `Path.reverse()` over any number of subpaths -/
 section whole
 set_option linter.unusedSectionVars false
@@ -541,7 +590,8 @@ theorem pathReverse_relink (p0 : Option (Pt K)) (ss : List (Sub K)) (hs : ∀ s 
       exact splitOwn_flat _ (shapes_relinkSubs p0 _ hs)
     rw [hp]
     unfold pathReverse
-    simp only [hsplit]
+    have hfun : (Sub.revLoop : Sub K → Option (Sub K)) = Sub.rev := funext revLoop_eq
+    simp only [hsplit, hfun]
     cases hm2 : (relinkSubs p0 (s :: rest)).mapM Sub.rev with
     | none => rfl
     | some rs =>
